@@ -63,7 +63,7 @@
 
    Position not at the end of the item — every case: a bare `Tag` reads only the head of the tagged item
    (consumed_ty: head_len).  Below a container a bare `Tag` would leave the following readers inside the item;
-   `whole_ty` (no bare Tag anywhere) marks the descriptors that consume the whole item, `tag_top` admits a
+   `whole_ty` (no bare Tag anywhere) marks the descriptors that consume the whole item, `tag_top` allows a
    bare `Tag` at the top only.  The theorems of Props/C04.v are stated for tag_top descriptors. *)
 From MC Require Export Cbor Utf8 Acc Types.
 Local Open Scope N_scope.
